@@ -550,6 +550,17 @@ def generate(ctx):
         weights = [rng.randint(-3, 3) or 1 for _ in range(k)]
         yield "mapov", {"chunks": chunks, "depth": depth, "boundary": bnd, "offsets": offsets, "weights": weights,
                         "allow_rechunk": rng.random() < 0.85}
+    # scale: more than 10 blocks along an axis (block keys 9.9 / 10.1 ... in the overlap layer)
+    for _ in range(ctx.n(5, 50)):
+        nb = rng.randint(11, 14)
+        d = rng.randint(1, 2)
+        lengths = [rng.randint(d, d + 2) for _ in range(nb)]
+        yield "blocks", {"chunks": [lengths], "depth": [[rng.randint(0, d), rng.randint(0, d)]]}
+        bnd = rng.choice(["periodic", "reflect", "nearest", "none", 0])
+        k = rng.randint(1, 3)
+        yield "mapov", {"chunks": [lengths, [2]], "depth": [d, 0], "boundary": [bnd, "none"],
+                        "offsets": [[rng.randint(-d, d), 0] for _ in range(k)], "weights": [rng.randint(1, 3) for _ in range(k)],
+                        "allow_rechunk": True}
     # map_overlap over two arrays of different rank, per-array depth/boundary lists
     for _ in range(ctx.n(40, 600)):
         chunks = [list(random_chunks(rng, rng.randint(2, 6))), list(random_chunks(rng, rng.randint(2, 7)))]
